@@ -165,6 +165,41 @@ def case_interchange(ctx, s: Subject):
             return colres(back["nest"].array)
         ctx.case("arrow.table_list_struct_types_mapper", s.desc(), call_real(table_ls_mapper), None, spec_same, hyp=hyp,
                  features=feats, nontrivial=nt, mode="ls_missing")
+    # a cast that changes only SOME fields of a sliced column leaves the fields of a chunk with different offset bases:
+    # the two orientations must still hold the same records per row
+    widen = {"int64": pa.float64(), "string": pa.large_string(), "bool": pa.int64(), "timestamp[ns]": pa.timestamp("ns")}
+    if len(ser) >= 2 and len(ty) >= 2:
+        j0 = rng.randrange(len(ty))
+        pt = pa.struct([pa.field(n, pa.list_(widen.get(t, TYPES[t]) if j == j0 else TYPES[t])) for j, (n, t) in enumerate(ty)])
+
+        def partial_cast():
+            part = ser.iloc[rng.randint(1, len(ser) - 1):].astype(NestedDtype(pt))
+            ty2 = export.dtype_ty(part.dtype)
+            struct_view = weak_rows(export.rows_view(part.array))
+            ls_view = ls_rows(part.array.chunked_list_struct_array, ty2)
+            empty = [[n, []] for n, _ in ty2]
+            norm = lambda rows: [empty if r is None else r for r in rows]   # noqa: E731  (K6: missing <-> empty in this orientation)
+            return {"same_records": norm(struct_view) == norm(ls_view), "struct": norm(struct_view), "list_struct": norm(ls_view)}
+        real = call_real(partial_cast)
+        ok = "ok" in real and real["ok"]["same_records"]
+        ctx.case("arrow.partial_cast_orientations", {**s.desc(), "field": ty[j0][0]}, real, None, None, hyp=hyp, features=feats,
+                 spec_ok=ok or bool(hyp.get("hidden")), nontrivial=nt)
+    # a list-of-structs column with ZERO chunks (what a mask selecting nothing leaves in pyarrow)
+    def zero_chunks():
+        out = {}
+        e1 = NestedExtensionArray(pa.chunked_array([], type=lst))
+        out["constructor"] = [len(e1), export.dtype_ty(e1.dtype)]
+        if "ok" in la and len(ser):
+            ser_ls = pd.Series(la["ok"], dtype=pd.ArrowDtype(lst))
+            none = ser_ls[np.zeros(len(ser_ls), dtype=bool)]
+            e2 = NestedExtensionArray.from_arrow_ext_array(none.array)
+            out["from_masked_series"] = [len(e2), export.dtype_ty(e2.dtype)]
+        return out
+    real = call_real(zero_chunks)
+    exp = {"constructor": [0, ty]}
+    if "ok" in la and len(ser):
+        exp["from_masked_series"] = [0, ty]
+    ctx.case("arrow.list_struct_zero_chunks", {"ty": ty}, real, None, {"ok": exp}, features=feats)
     bad = pa.struct([pa.field(n, pa.list_(pa.int64())) for n, _ in ty] + [pa.field("extra", pa.list_(pa.int64()))])
     real = call_real(lambda: str(pa.array(ext, type=bad).type))
     ok = "err" in real or real.get("ok") == str(bad)
